@@ -778,6 +778,8 @@ def open_text(fname):
         buffering=FILE_READ_BUFFER_SIZE,
         encoding=ENCODING,
         errors=ENCODING_ERRS,
+        # do not translate '\r' and '\r\n' into '\n'
+        newline="",
     )
     try:
         # Dictates per-line read(2) buffer size. Defaults is 8k. See:
